@@ -23,6 +23,7 @@
 
 #include <SQuIDS/SUNalg.h>
 
+#include <algorithm>
 #include <ostream>
 #include <complex>
 #include <gsl/gsl_linalg.h>
@@ -41,6 +42,40 @@ gsl_complex to_gsl(std::complex<double> c){
   gsl_complex g;
   GSL_SET_COMPLEX(&g,c.real(),c.imag());
   return(g);
+}
+
+///Check whether (val,vec) is a finite, unitary eigen-decomposition of the
+///hermitian matrix m, to well within the accuracy expected of a solver
+bool valid_eigensystem(const gsl_matrix_complex* m, const gsl_vector* val, const gsl_matrix_complex* vec){
+  const size_t n=m->size1;
+  const double tol=1e-10;
+  auto get=[](const gsl_matrix_complex* a, size_t i, size_t j){
+    gsl_complex z=gsl_matrix_complex_get(a,i,j);
+    return std::complex<double>(GSL_REAL(z),GSL_IMAG(z));
+  };
+  double scale=0;
+  for(size_t i=0; i<n; i++)
+    for(size_t j=0; j<n; j++)
+      scale=std::max(scale,std::abs(get(m,i,j)));
+  for(size_t j=0; j<n; j++){
+    const double lambda=gsl_vector_get(val,j);
+    if(!std::isfinite(lambda))
+      return false;
+    for(size_t i=0; i<n; i++){
+      std::complex<double> residual=-lambda*get(vec,i,j); //(M v_j - lambda_j v_j)_i
+      std::complex<double> overlap=0; //v_i^dagger v_j
+      for(size_t k=0; k<n; k++){
+        residual+=get(m,i,k)*get(vec,k,j);
+        overlap+=std::conj(get(vec,k,i))*get(vec,k,j);
+      }
+      //written so that NaNs fail the test
+      if(!(std::abs(residual)<=tol*scale))
+        return false;
+      if(!(std::abs(overlap-(i==j?1.:0.))<=tol))
+        return false;
+    }
+  }
+  return true;
 }
 
 void gsl_matrix_complex_normalize( gsl_matrix_complex * m) {
@@ -461,7 +496,12 @@ SU_vector::GetEigenSystem(bool order) const{
           {
 #include <SQuIDS/SU_inc/EigenSystemSU3.txt>
           }
-          break;
+          //The closed form divides by quantities which vanish for diagonal,
+          //degenerate and otherwise structured matrices, so only keep its
+          //result if it really is a decomposition of this matrix.
+          if(valid_eigensystem(GetGSLMatrix().get(),eigenvalues,eigenvectors))
+            break;
+          //otherwise fall through to the general solver
     default:
       auto matrix=(*this).GetGSLMatrix();
       gsl_eigen_hermv_workspace * ws = gsl_eigen_hermv_alloc(dim);
